@@ -2122,8 +2122,18 @@ impl World {
             _ => Keys::generate().public_key(),
         };
         let canary = format!("forged-{}-{}", self.step, m);
+        // (kind / 3 picks the rumor's own timestamp: ordinary, 0, just beyond i64::MAX, u64::MAX)
+        let rumor_ts = match (kind / 3) % 4 {
+            0 => self.t0 + 100 + (kind % 3) as u64,
+            1 => 0,
+            2 => i64::MAX as u64 + 1 + (kind % 3) as u64,
+            _ => u64::MAX - (kind % 3) as u64,
+        };
+        if (kind / 3) % 4 != 0 {
+            self.count("rogue:msg:extreme-rumor-timestamp");
+        }
         let mut rumor = EventBuilder::new(Kind::Custom(9 + (kind % 3) as u16), canary.clone())
-            .custom_created_at(Timestamp::from_secs(self.t0 + 100 + (kind % 3) as u64))
+            .custom_created_at(Timestamp::from_secs(rumor_ts))
             .build(claimed);
         let mut collides_with = None;
         match id_sel % 4 {
